@@ -207,7 +207,9 @@ where
                 pos: Self::DATA_OFFSET,
             });
         }
-        for (i, x) in unsafe { this.data().get_unchecked(..this.len()) }.iter().enumerate() {
+        // All zero-sized items are the same (empty) byte string, there is no need to check each of `len` of them.
+        let count = if T::SIZE != 0 { this.len() } else { this.len().min(1) };
+        for (i, x) in unsafe { this.data().get_unchecked(..count) }.iter().enumerate() {
             unsafe { T::validate_ptr(x.as_ptr()) }.map_err(|e| e.offset(Self::DATA_OFFSET + i * T::SIZE))?;
         }
         Ok(())
